@@ -54,3 +54,39 @@ class MPBFloatContext__round_at(Contract):
 
     def raises(self, x, n, exact):
         return mpb_raises(self, x, n, exact)
+
+
+class MPBFloatContext_round(Contract):
+    target = 'fpy2.number.context.mpb_float:MPBFloatContext.round'
+    params = {'self': 'MPBFloatContext', 'x': 'RealFloat | Float', 'exact': 'bool'}
+    returns = 'Float'
+    properties = ['C01']
+    binds = {'result._ctx': 'self'}
+    options = {'noax_first_ms': 8000}
+
+    def pre(self, x, exact):
+        return {'deterministic': self.num_randbits is not None and self.num_randbits == 0}
+
+    def post(self, x, exact, result):
+        return mpb_post(self, x, None, exact, result)
+
+    def raises(self, x, exact):
+        return mpb_raises(self, x, None, exact)
+
+
+class MPBFloatContext_round_at(Contract):
+    target = 'fpy2.number.context.mpb_float:MPBFloatContext.round_at'
+    params = {'self': 'MPBFloatContext', 'x': 'RealFloat | Float', 'n': 'int', 'exact': 'bool'}
+    returns = 'Float'
+    properties = ['C01']
+    binds = {'result._ctx': 'self'}
+    options = {'noax_first_ms': 8000}
+
+    def pre(self, x, n, exact):
+        return {'deterministic': self.num_randbits is not None and self.num_randbits == 0}
+
+    def post(self, x, n, exact, result):
+        return mpb_post(self, x, n, exact, result)
+
+    def raises(self, x, n, exact):
+        return mpb_raises(self, x, n, exact)
